@@ -21,3 +21,22 @@ package auth
 //@   ensures wellFormed(token) && !isSalt(splitpart(token, "/", 2)) ==> result1 == nil && result == "v2/" + splitpart(token, "/", 1) + "/" + hmacsha1hex(splitpart(token, "/", 2), remote)
 //@   ensures wellFormed(token) && isSalt(splitpart(token, "/", 2)) && strings.HasPrefix(splitpart(token, "/", 1), remote) ==> result1 == nil && result == token
 //@   ensures wellFormed(token) && isSalt(splitpart(token, "/", 2)) && !strings.HasPrefix(splitpart(token, "/", 1), remote) ==> result1 == ErrSalted && result == ""
+
+// LoadTokensFromHTTPRequest: the tokens of the request are collected from the
+// Authorization header (OAuth2/Bearer: everything after the first space), from
+// basic auth, and from every api_token parameter that net/url can extract
+// from the raw query - also when the rest of the query is malformed (ParseQuery
+// reports an error but still returns what it could decode; the controller
+// decides from this list whether there is a token to salt before the request
+// is forwarded, so a token that is present must never be overlooked here).
+//@ func Credentials.loadTokenFromCookie property C19
+//@   modifies Credentials.Tokens mem:string
+//@ func Credentials.LoadTokensFromHTTPRequest property C19 safety -bounds,-nil
+//@   ghost q url.Values = nil
+//@   ghost took bool = false
+//@   calls url.ParseQuery#1: requires $0 == r.URL.RawQuery
+//@   calls url.ParseQuery#1: set q = $r0
+//@   calls append#3: requires $1 == q["api_token"]
+//@   calls append#3: set took = true
+//@   calls append#1: requires $1[0] == toks[1]
+//@   calls Credentials.loadTokenFromCookie#1: requires has(q, "api_token") ==> took
